@@ -308,6 +308,9 @@ type scope struct {
 
 	// is a variable environment, i.e. the target for dynamically created var bindings
 	variable bool
+	// the variable environment of strict eval code (it borrows funcType from the enclosing function,
+	// but it is not a function scope: 'arguments' is resolved dynamically in the caller)
+	evalVarScope bool
 	// a function scope that has at least one direct eval() and non-strict, so the variables can be added dynamically
 	dynamic bool
 	// arguments have been marked for placement in stash (functions only)
@@ -501,7 +504,7 @@ func (s *scope) lookupName(name unistring.String) (binding *binding, noDynamics 
 		if curScope.dynamic {
 			noDynamics = false
 		}
-		if name == "arguments" && curScope.funcType != funcNone && curScope.funcType != funcArrow {
+		if name == "arguments" && curScope.funcType != funcNone && curScope.funcType != funcArrow && !curScope.evalVarScope {
 			if curScope.funcType == funcClsInit {
 				s.c.throwSyntaxError(0, "'arguments' is not allowed in class field initializer or static initialization block")
 			}
@@ -938,6 +941,7 @@ func (c *compiler) compile(in *ast.Program, strict, inGlobal bool, evalVm *vm) {
 		c.newBlockScope()
 		scope = c.scope
 		scope.variable = true
+		scope.evalVarScope = true
 	}
 	if eval && !inGlobal {
 		for s := evalVm.stash; s != nil; s = s.outer {
